@@ -149,8 +149,15 @@ func racePass(r *kit.Result, tier string) {
 	if root == "" {
 		root = "/verif"
 	}
-	bin := filepath.Join(root, ".build", "c35race")
-	ov := filepath.Join(root, ".build", "overlay-c35.json") // plain overlay (transforms/accessors, no rewriting)
+	dir := os.Getenv("VERIF_RUN_DIR")      // set by bin/check: this invocation's private build directory
+	ov := os.Getenv("VERIF_PLAIN_OVERLAY") // plain overlay (transforms/accessors, no rewriting)
+	if dir == "" || ov == "" {
+		r.Outcome = "race-pass:build-failed"
+		r.Count("race_pass_build_failed", 1)
+		r.Sample = "VERIF_RUN_DIR / VERIF_PLAIN_OVERLAY not set (run through bin/check)"
+		return
+	}
+	bin := filepath.Join(dir, "c35race")
 	build := exec.Command("go", "build", "-race", "-tags", "verif", "-overlay", ov, "-o", bin, "./checks/c35/race")
 	build.Dir = filepath.Join(root, "vkit")
 	if out, err := build.CombinedOutput(); err != nil {
@@ -192,9 +199,7 @@ func raceSite(rep string) string {
 	for _, l := range strings.Split(rep, "\n") {
 		l = strings.TrimSpace(l)
 		if strings.HasPrefix(l, "diagonal.works/b6") {
-			if i := strings.Index(l, "("); i > 0 {
-				l = l[:i]
-			}
+			l = strings.TrimSuffix(l, "()") // keep method receivers such as compact.(*World).Merge
 			l = strings.TrimPrefix(l, "diagonal.works/")
 			if len(fs) == 0 || fs[len(fs)-1] != l {
 				fs = append(fs, l)
@@ -210,8 +215,8 @@ func raceSite(rep string) string {
 func main() {
 	kit.Main(&kit.Check{
 		ID: "C35", Level: "model_checking",
-		Rule: "readers: (world kind, multiset of 2 (thorough: 3) query scripts) — every interleaving of the reader goroutines at the world's lock points, each result compared with the script's sequential result; build: (source, builder) with 2 goroutines — every interleaving up to the bound, no deadlock/panic, dump equal to the 1-core world; race: one free-running pass under the race detector (auxiliary). Non-trivial = at least one scheduling choice; distinct = happens-before keys.",
-		Assumptions: []string{"the controlled scheduler decides atomicity and deadlock; unsynchronised accesses are only witnessed by the auxiliary race-detector pass, which samples", "sync/atomic operations are not scheduling points"},
+		Rule:          "readers: (world kind, multiset of 2 (thorough: 3) query scripts) — every interleaving of the reader goroutines at the world's lock points, each result compared with the script's sequential result; build: (source, builder) with 2 goroutines — every interleaving up to the bound, no deadlock/panic, dump equal to the 1-core world; race: one free-running pass under the race detector (auxiliary). Non-trivial = at least one scheduling choice; distinct = happens-before keys.",
+		Assumptions:   []string{"the controlled scheduler decides atomicity and deadlock; unsynchronised accesses are only witnessed by the auxiliary race-detector pass, which samples", "sync/atomic operations are not scheduling points"},
 		QuickDeadline: 250e9, ThoroughDeadline: 1500e9, CaseTimeout: 600e9, Chunk: 1,
 		Build: func(tier string) (kit.Space, string) {
 			var sc []scenario
